@@ -1,1 +1,49 @@
-fn main() { println!("ok"); }
+use vh::act::{apply, Action};
+use vh::world::*;
+
+fn main() {
+    let banks = vec![
+        BankSpec { label: "B6".into(), mint: MintSpec::spl("usdc", 6), oracle: OracleSpec::pyth_usd(100_000_000), config: BankCfg::default() },
+        BankSpec { label: "B9".into(), mint: MintSpec::spl("sol", 9), oracle: OracleSpec::pyth_usd_conf(10_000_000_000, 50_000_000), config: BankCfg::default() },
+        BankSpec { label: "BF".into(), mint: MintSpec::t22("fee", 6, Some((100, 5000))), oracle: OracleSpec::pyth_usd(100_000_000), config: BankCfg::default() },
+        BankSpec { label: "BT".into(), mint: MintSpec::t22("t22", 8, None), oracle: OracleSpec::Swb { value: 2_000_000_000_000_000_000, std_dev: 0 }, config: BankCfg::default() },
+    ];
+    let t0 = std::time::Instant::now();
+    let (w, mut s) = build_world(&WorldSpec::new("smoke", banks, &["u0", "u1"]));
+    println!("world built in {:?}, {} accounts", t0.elapsed(), s.accts.len());
+    let acts = vec![
+        Action::Deposit { u: 0, b: 0, amt: 1_000_000_000, up_to_limit: None },
+        Action::Deposit { u: 1, b: 1, amt: 10_000_000_000, up_to_limit: None },
+        Action::Deposit { u: 1, b: 2, amt: 5_000_000, up_to_limit: None },
+        Action::Deposit { u: 1, b: 3, amt: 500_000_000, up_to_limit: None },
+        Action::Borrow { u: 0, b: 1, amt: 1_000_000_000 },
+        Action::Borrow { u: 0, b: 1, amt: u64::MAX / 4 },
+        Action::Borrow { u: 0, b: 2, amt: 1_000_000 },
+        Action::Borrow { u: 0, b: 3, amt: 1_000_000 },
+        Action::Advance { dt: 3600 },
+        Action::Accrue { b: 1 },
+        Action::CollectFees { b: 1 },
+        Action::Repay { u: 0, b: 1, amt: 0, all: true },
+        Action::Repay { u: 0, b: 2, amt: 0, all: true },
+        Action::Repay { u: 0, b: 3, amt: 0, all: true },
+        Action::Withdraw { u: 0, b: 0, amt: 0, all: true },
+        Action::Withdraw { u: 1, b: 2, amt: 100, all: false },
+    ];
+    for a in &acts {
+        let t = std::time::Instant::now();
+        let r = apply(&w, &mut s, a);
+        println!("{:?} -> {} ({:?}) panic={:?}", a, vh::svm::err_name(r.code), t.elapsed(), if r.code == vh::svm::ERR_PANIC { vh::svm::last_panic() } else { None });
+    }
+    for b in &w.banks {
+        let bk = bank(&s, &b.key);
+        println!("{}: vault={} assets_sh={:?} liab_sh={:?} asv={:?} lsv={:?} ins={:?} grp={:?} prog={:?}", b.label, token_amount(&s, &b.lv), bk.total_asset_shares, bk.total_liability_shares, bk.asset_share_value, bk.liability_share_value, bk.collected_insurance_fees_outstanding, bk.collected_group_fees_outstanding, bk.collected_program_fees_outstanding);
+    }
+    // timing
+    let t = std::time::Instant::now();
+    let n = 20000;
+    for i in 0..n {
+        let mut s2 = s.clone();
+        let _ = apply(&w, &mut s2, &Action::Deposit { u: 0, b: 0, amt: 1000 + i, up_to_limit: None });
+    }
+    println!("{} clone+deposit in {:?}", n, t.elapsed());
+}
